@@ -33,6 +33,7 @@ None == "none"
 Del  == "DEL"
 NoRd == "-"
 Keys == {"k1", "k2"}
+KeySeq == <<"k1", "k2">>                 \* Keys in key order
 Addrs == <<"a", "b", "c", "m">>          \* m = block proposer
 AddrSet == {"a", "b", "c", "m"}
 Fee == "$"
@@ -501,6 +502,13 @@ ObsOf(rec, lt) ==
          utxo |-> {UtxoRow(u) : u \in rec.s.utxo},
          keys |-> [k \in Keys |-> KeyObs(rec.s, k)],
          pool |-> rec.pool,
+         \* GetBalanceDetail: <<unfrozen, frozen>> per address, frozen = frozen height above the ledger's trunk height
+         bald |-> [i \in 1..Len(Addrs) |-> <<ToString(SumAmt({u \in rec.s.utxo : u.ad = Addrs[i] /\ u.fz <= Height(lt)})),
+                                             ToString(SumAmt({u \in rec.s.utxo : u.ad = Addrs[i] /\ u.fz > Height(lt)}))>>],
+         \* XMReader.Select over the whole bucket: the live keys in key order with their versions
+         scan |-> FoldLeft(LAMBDA acc, k : IF rec.s.zu[k] # None THEN Append(acc, <<k, rec.s.zu[k]>>) ELSE acc, <<>>, KeySeq),
+         \* chain-governed parameters: no transaction of this version changes them
+         params |-> "genesis",
          \* C18: snapshots at every block of the chain (only while the state is on the ledger's main chain)
          snap |-> IF rec.ptr \in Anc(lt)
                   THEN [i \in 1..Len(ChainSeq(rec.ptr)) |-> [k \in Keys |-> KeyObs(ForceReplay(ChainSeq(rec.ptr)[i]), k)]]
